@@ -220,7 +220,7 @@ Lemma on_append_entries_eq : forall e from m t c s,
   if t <? term (nd s) then s else ae_tail e from m c (ae_head e from t c s).
 Proof. intros; unfold on_append_entries, ae_tail, ae_head. destruct (t <? term (nd s)); reflexivity. Qed.
 
-Lemma fr_ae_regular : forall m e from c prev new s, fr m s (ae_regular e from c prev new s).
+Lemma fr_ae_regular : forall e from c prev new s, fr false s (ae_regular e from c prev new s).
 Proof.
   intros; unfold ae_regular; cbv zeta.
   destruct (get_entries _ _ _ _) as [|p0 ptail]; [fr1|].
